@@ -151,6 +151,37 @@ func factsVars(repo string, o *out) {
 		envOrder = []string{"?missing"}
 	}
 	o.def("EnvMergeOrder", "list string", coqStrList(envOrder))
+
+	// ---- compiledTask: is a defer: entry handed to the compiled task as a copy or as the shared definition ----
+	// (runDeferred renders the entry lazily and writes the result back into what the compiled task holds)
+	deferShared := true // fail closed
+	if fd := root.funcDecl("Executor", "compiledTask"); fd != nil && fd.Body != nil {
+		found := 0
+		ast.Inspect(fd.Body, func(nd ast.Node) bool {
+			is, ok := nd.(*ast.IfStmt)
+			if !ok || exprStr(is.Cond) != "cmd.Defer" {
+				return true
+			}
+			ast.Inspect(is.Body, func(n2 ast.Node) bool {
+				ce, ok := n2.(*ast.CallExpr)
+				if ok && exprStr(ce.Fun) == "append" && len(ce.Args) == 2 && exprStr(ce.Args[0]) == "new.Cmds" {
+					found++
+					if exprStr(ce.Args[1]) == "cmd.DeepCopy()" {
+						deferShared = false
+					} else {
+						deferShared = true
+						found += 100
+					}
+				}
+				return true
+			})
+			return true
+		})
+		if found != 1 {
+			deferShared = true
+		}
+	}
+	o.def("DeferEntrySharedWithDefinition", "bool", varsBoolStr(deferShared))
 	o.def("TaskDotenvFirstWins", "bool", varsBoolStr(taskDotFirst))
 
 	// ---- taskfile.Dotenv / readDotEnvFiles guards ----
